@@ -315,8 +315,24 @@ def solve_all(obs, rounds=((("z3", 4), ("cvc5", 4)), (("cvc5", 40), ("z3", 40), 
             else:
                 nxt.append(i)
         todo = nxt
+        if todo and ground and rnd is rounds[0]:
+            # cheap early attempt to refute what the first round could not prove: seeded ground instantiation
+            # (on the hint query when abstraction atoms are involved); a hit is a candidate that the driver replays
+            jobs = [(i, "ground", getattr(obs[i], "smt2_hint", None) or obs[i].smt2, 30, seed + 1) for i in todo]
+            res = p.run(jobs)
+            nxt = []
+            for i in todo:
+                r, info, secs = res.get((i, "ground"), ("unknown", None, 0))
+                obs[i].by["ground"] = r
+                obs[i].secs["ground"] = secs
+                if r == "sat":
+                    obs[i].model = info
+                    obs[i].verdict = "sat"
+                else:
+                    nxt.append(i)
+            todo = nxt
     if todo and ground:
-        jobs = [(i, "ground", obs[i].smt2, 60, seed + 1) for i in todo]
+        jobs = [(i, "ground", getattr(obs[i], "smt2_hint", None) or obs[i].smt2, 60, seed + 1) for i in todo]
         res = p.run(jobs)
         for (i, eng), (r, info, secs) in res.items():
             o = obs[i]
